@@ -119,6 +119,33 @@ def run_tags_chunk(chunk):
             if new is None or not all(bg.greater(new, s_) for s_ in want):
                 st.violation(f"C01:announced-version-not-greater-than-newest-tag-in-scope:{name}:{scope}" + (":fetch-failed" if fetch_fault else "") + (":scope-on-command-line" if cfg_scope else ""), case,
                              {"announced": new, "reference_start_version": sorted(want), "old_version_line": o.old_version})
+        # a REAL (not dry) committing update told to ignore the tags and to set the version to one that already exists as a tag:
+        # whatever is decided, a non-zero exit must leave every file as it was (the tag step cannot succeed: the tag exists)
+        cands = [t for t in served_all if c09.classify_tag(name, t) == "match" and bg.greater(t, cfgv)][:1]
+        for t in cands:
+            for scope in c09.SCOPES:
+                world.clear_dir(".")
+                tree = c09.project(name, cfgv, scope)
+                world.write_tree(tree)
+                world.mark_repo("git")
+                fake = fakevcs.install(fakevcs.FakeVCS("git", tags_all=served_all, tags_merged=served_head, status=[], remote=None))
+                try:
+                    o = world.cli("update", "--no-fetch", "--ignore-vcs-tag", "--set-version", t)
+                finally:
+                    fakevcs.uninstall()
+                after = world.read_tree(".")
+                st.evaluations += 1
+                st.transitions += 1
+                st.validated += 1
+                st.observe((name, pos, scope, placement, "set-existing", t, o.exit, sorted(after.items())))
+                case = {"tags_case": name, "config": cfgv, "scope": scope, "set_version_of_existing_tag": t, "tags": {x: pl for x, pl in zip(tags, placement) if pl != "absent"}}
+                if o.exit != 0 and after != tree:
+                    st.violation(f"C01:files-changed-by-failed-update:set-version-of-existing-tag:{name}:{scope}", case,
+                                 {"exit": o.exit, "effects": fake.effect_names(), "log": o.log[-3:]})
+                elif o.exit != 0:
+                    st.outcomes["update:refused(existing tag)"] += 1
+                else:
+                    st.outcomes["update:ok(existing tag, ignored)"] += 1
     os.chdir("/")
     return st
 
